@@ -111,4 +111,29 @@ def periodIndexes (np : Nat) : DateArg → List Int
 def Plan.writeDates (p : Plan) (k : Kind) (d : DateArg) (names : List Nat) (status : Bool) : Except PlanErr Plan :=
   p.write k (periodIndexes p.numPeriods d) names status
 
+/-! ## 4. Option spellings -/
+
+/-- the simulator modules of `simultaneous/_simulate.py` -/
+inductive SimMethod | firstOrder | periodByPeriod | stackedTime
+  deriving DecidableEq, Repr
+
+/-- `METHOD_NAME` of the module -/
+def SimMethod.name : SimMethod → String
+  | .firstOrder => "first_order" | .periodByPeriod => "period_by_period" | .stackedTime => "stacked_time"
+
+/-- `_SIMULATOR_MODULE[method]` with the default of the keyword (`none` = the keyword is left out); an unknown spelling is a `KeyError` -/
+def resolveMethod : Option String → Option SimMethod
+  | none => some .firstOrder
+  | some "first_order" => some .firstOrder
+  | some "period_by_period" => some .periodByPeriod
+  | some "period" => some .periodByPeriod
+  | some "stacked_time" => some .stackedTime
+  | some "stacked" => some .stackedTime
+  | some _ => none
+
+/-- `Simultaneous.simulate` as far as the spelling of `method` is concerned: everything downstream of the lookup (input snapshot, frames,
+initial guess, frame simulation) is a function of the resolved module -/
+def simulateSpelled {α : Type} (run : SimMethod → α) (spelling : Option String) : Option α :=
+  (resolveMethod spelling).map run
+
 end IrisVerif.Plans
